@@ -29,7 +29,9 @@ def gen_cases(run):
             # direct reasoning over the structure, then the same through the wrapping causaloid
             calls.append(call(0 if kind == 2 else 4, 0, 0, idx, data))
             calls.append(call(5, 0, 0, idx, data)); dist["pairs_direct_vs_wrapped"] += 1
-        cases.append(mk_case(tree, calls, {}))
+        # a top-level collection is held in any of the four ORDERED containers (slice, Vec, wrapped VecDeque, BTreeMap)
+        meta = {"cont": rng.choice([0, 1, 2, 2, 3])} if kind == 1 else {}
+        cases.append(mk_case(tree, calls, meta))
     return cases, dist
 
 
